@@ -90,6 +90,20 @@ Proof.
   destruct (bytes_eqb n k); [discriminate|exact (IH H)].
 Qed.
 
+Lemma flookup_nul_free (n : bytes) (fs : fields) tc r : flookup n fs = Some (tc, r) -> wf_fields fs -> nul_free n.
+Proof.
+  induction fs as [|k tc' r' t IH]; cbn [flookup wf_fields]; [discriminate|].
+  intros H (Hn & Htc & Hr & Ht). destruct (bytes_eqb n k) eqn:E; [|exact (IH H Ht)].
+  apply bytes_eqb_eq in E. subst k. exact Hn.
+Qed.
+
+Lemma notin_flookup (n : bytes) (fs : fields) : ~ In n (fnames fs) -> flookup n fs = None.
+Proof.
+  intro H. destruct (flookup n fs) as [[tc r]|] eqn:E; [|reflexivity].
+  exfalso. apply H. clear H. revert E. induction fs as [|k tc' r' t IH]; cbn [flookup fnames In]; [discriminate|].
+  destruct (bytes_eqb n k) eqn:Eb; [apply bytes_eqb_eq in Eb; auto|auto].
+Qed.
+
 (* ------------------------------------------------------------------ item lists *)
 
 Lemma wf_items_snoc ft l v : wf_items ft l -> wf_item ft v -> wf_items ft (items_snoc l v).
@@ -153,7 +167,7 @@ Qed.
 
 Lemma step_wf (m : msg) (o : mop) : wf_msg m -> op_ok o -> wf_msg (fst (step m o)).
 Proof.
-  intros Hm Ho. destruct o as [p n tc v|a n tc idx v|n idx|n|old new|w|]; cbn [step op_ok] in *.
+  intros Hm Ho. destruct o as [p n tc v|a n tc idx v|n idx|n|old new|w| |n|n|old new]; cbn [step op_ok] in *.
   - destruct Ho as (Hn & Htc & Hv). apply api_add_wf; assumption.
   - (* replace *)
     destruct Ho as (Hn & Htc & Hv). destruct m as [w fs]. unfold api_replace.
@@ -197,6 +211,29 @@ Proof.
   - (* clear *)
     destruct m as [w0 fs]. destruct Hm as (Hw & Hnd & Hfs). cbn [fst msg_what wf_msg fnames wf_fields].
     split; [exact Hw|]. split; [constructor|exact I].
+  - (* move to front *)
+    destruct m as [w fs]. unfold api_move.
+    destruct (flookup n fs) as [[tc r]|] eqn:El; [|exact Hm]. cbn [fst].
+    pose proof Hm as (Hw & Hnd & Hfs). destruct (flookup_wf _ _ _ _ El Hfs) as [Htc Hr].
+    pose proof (flookup_nul_free _ _ _ _ El Hfs) as Hn.
+    cbn [wf_msg fnames wf_fields]. split; [exact Hw|]. split.
+    + constructor; [apply notin_fremove; exact Hnd|apply nodup_fremove; exact Hnd].
+    + auto using wf_fields_fremove.
+  - (* move to back *)
+    destruct m as [w fs]. unfold api_move.
+    destruct (flookup n fs) as [[tc r]|] eqn:El; [|exact Hm]. cbn [fst].
+    pose proof Hm as (Hw & Hnd & Hfs). destruct (flookup_wf _ _ _ _ El Hfs) as [Htc Hr].
+    pose proof (flookup_nul_free _ _ _ _ El Hfs) as Hn.
+    apply wf_fsnoc_msg; auto using wf_fremove_msg.
+    apply notin_flookup. apply notin_fremove. exact Hnd.
+  - (* copy name *)
+    destruct m as [w fs]. unfold api_copy_name.
+    destruct (bytes_eqb old new); [exact Hm|].
+    destruct (flookup old fs) as [[tc r]|] eqn:El; [|exact Hm]. cbn [fst].
+    pose proof Hm as (Hw & Hnd & Hfs). destruct (flookup_wf _ _ _ _ El Hfs) as [Htc Hr].
+    unfold fput. destruct (flookup new fs) eqn:El2.
+    + apply wf_fset_msg; assumption.
+    + apply wf_fsnoc_msg; assumption.
 Qed.
 
 Theorem api_reachable_wf (ops : list mop) : Forall op_ok ops -> wf_msg (run ops empty_msg).
